@@ -318,4 +318,6 @@ var corpus = []struct {
 	{bcase{"corpus-nearcusp-quad", []P{{X: 0, Y: 0}, {X: 10, Y: 0.001}, {X: 0, Y: 0.002}}}, 0.01},
 	{bcase{"corpus-narrow-arch-quad", []P{{X: -2, Y: 0.375}, {X: -1.875, Y: -7.75}, {X: -1.75, Y: 0.375}}}, 0.1},
 	{bcase{"corpus-cusp-cube", []P{{X: 1, Y: -2.5}, {X: 11, Y: 7.5}, {X: 1, Y: 7.5}, {X: 11, Y: -2.5}}}, 0.001},
+	// fixed: vertex beyond the end of the curve (first inflection range past t=1 overlapping the second)
+	{bcase{"corpus-inflection-range-past-end", []P{{X: 4.482421875, Y: -0.0302734375}, {X: 4.484375, Y: 0.0390625}, {X: 4.4814453125, Y: -0.037109375}, {X: 4.4912109375, Y: 0.03515625}}}, 0.01},
 }
